@@ -152,6 +152,29 @@ Theorem C15_graph_sums_any_sample : forall sample rootname tids s q, wf_stream s
 Proof. exact graph_sums_gen. Qed.
 Print Assumptions C15_graph_sums_any_sample.
 
+(* a task that is switched out when the data ends: its linux:schedule call is ended under that name
+   (C15_chrome_structure / C15_chrome_sched_stream_wf state it for every stream); the code as found (before bc8d6cc)
+   named the closing event after the event number: *)
+Theorem C15_chrome_close_sched_legacy_refuted :
+  wf_stream wit_stuck = true
+  /\ ok_chrome [(100, 100)] (chrome_stream wit_stuck) (chrome_events [(100, 100)] (chrome_stream wit_stuck)) = true
+  /\ map c_name (chrome_events [(100, 100)] (chrome_stream wit_stuck)) = [wit_main; s_sched; s_sched; wit_main]
+  /\ map c_name (chrome_events_legacy [(100, 100)] wit_stuck) = [wit_main; s_sched; [60; 51; 48; 100; 52; 50; 62]; wit_main]
+  /\ ok_chrome [(100, 100)] (chrome_stream wit_stuck) (chrome_events_legacy [(100, 100)] wit_stuck) = false.
+Proof. exact chrome_close_sched_legacy_refuted. Qed.
+Print Assumptions C15_chrome_close_sched_legacy_refuted.
+
+(* the calls still open at the end of the data count up to the LAST RECORD OF THEIR OWN TASK (C15_graph_sums states
+   it for every stream); the code as found (before feda1db) took, for a task whose last record is a scheduler event,
+   the time of the last scheduler event of any task: *)
+Theorem C15_graph_last_time_legacy_refuted :
+  wf_stream wit_last = true
+  /\ time_path [wit_main; wit_f] (ref_calls [100; 101] wit_last) = 200
+  /\ time_at [wit_main; wit_f] (graph_build 1 [112] [100; 101] wit_last) = 200
+  /\ time_at [wit_main; wit_f] (graph_build_legacy 1 [112] [100; 101] wit_last) = 1000.
+Proof. exact graph_last_time_legacy_refuted. Qed.
+Print Assumptions C15_graph_last_time_legacy_refuted.
+
 (* child_time of the node at a non-empty path q = sum over the calls whose CALLER's path is q of their duration
    (sample = 0), resp. of that duration rounded down to whole samples (adjust_fg_time), modulo 2^64. *)
 Theorem C15_graph_child_time : forall sample rootname tids s q,
@@ -309,6 +332,15 @@ Theorem C15_json_ptr_legacy_refuted :
   /\ json_string_ok (quoted (args_text true [APtr (Some [102; 34; 103]) 4198912])) = true.
 Proof. exact json_ptr_legacy_refuted. Qed.
 Print Assumptions C15_json_ptr_legacy_refuted.
+
+(* a struct passed by value is printed as its ESCAPED type name + {...} (fix for the struct name; also covered by
+   C15_json_args_text_valid for every name, as are the integer formats d/i/x/o and doubles); the code as found
+   printed the type name raw: *)
+Theorem C15_json_struct_legacy_refuted :
+  json_string_ok (quoted ([40] ++ struct_text_legacy [110; 34; 109] 8 ++ [41])) = false
+  /\ json_string_ok (quoted (args_text true [AStruct (Some [110; 34; 109]) 8])) = true.
+Proof. exact json_struct_legacy_refuted. Qed.
+Print Assumptions C15_json_struct_legacy_refuted.
 
 (* `dump --flame-graph` on recorded data (info has a record date) and no --sample-time: the sample time is the
    smallest of 1us, 10us, ... 1s of which a million cover the elapsed time (1s at most) ... *)
